@@ -56,6 +56,7 @@ type cCluster struct {
 	nodes []*cNode
 	snapT uint64
 	snapI time.Duration
+	skew  []int64 // per node index: offset of the node's clock from the cluster clock (witness lane only)
 
 	mu      sync.Mutex
 	applied map[string][]applyEv
@@ -206,7 +207,14 @@ func (c *cCluster) startNode(n *cNode) bool {
 		delete(c.applied, n.id)
 	}
 	c.mu.Unlock()
-	in, err := NewInst(InstOpts{DataDir: n.dir, Clock: c.clk, Cluster: &o, SnapThreshold: c.snapT, SnapshotInterval: c.snapI})
+	clk := c.clk
+	for i, m := range c.nodes {
+		if m == n && i < len(c.skew) && c.skew[i] != 0 {
+			clk = NewVClock()
+			clk.Set(c.clk.NowNs() + c.skew[i])
+		}
+	}
+	in, err := NewInst(InstOpts{DataDir: n.dir, Clock: clk, Cluster: &o, SnapThreshold: c.snapT, SnapshotInterval: c.snapI})
 	if err != nil {
 		c.ctx.Broken("C07: cannot start node " + n.id + ": " + err.Error())
 		return false
@@ -389,7 +397,7 @@ func checkC07(ctx *Ctx) {
 	for _, wt := range []struct {
 		id string
 		f  func(*Ctx) bool
-	}{{"C07-KF1", c07WitnessSpop}, {"C07-KF2", c07WitnessExpired}} {
+	}{{"C07-KF1", c07WitnessSpop}, {"C07-KF2", c07WitnessExpired}, {"C07-KF4", c07WitnessSkew}} {
 		if ctx.Mine(n + w) {
 			ctx.SetCurrent("C07 witness " + wt.id)
 			if wt.f(ctx) {
@@ -1287,4 +1295,53 @@ func knownExpiredHangs() map[string]bool {
 		}
 	}
 	return out
+}
+
+// c07WitnessSkew: a relative expiry is replicated as typed and evaluated against each replica's own
+// clock when it is applied, so replicas whose clocks differ store different deadlines.
+func c07WitnessSkew(ctx *Ctx) bool {
+	c := newCluster(ctx, false, 0, 0)
+	c.skew = []int64{0, 5e9, -3e9}
+	for k := 0; k < 3; k++ {
+		if _, ok := c.addNode(true); !ok {
+			c.close()
+			ctx.Inconclusive("C07 witness: cluster did not form")
+			return false
+		}
+	}
+	defer c.close()
+	l := c.leader()
+	script := []string{"SET abs v PXAT <now+100s>", "SET rel v EX 100", "RPUSH lst a", "EXPIRE lst 50"}
+	l.in.Do("SET", "abs", "v", "PXAT", itoa(c.clk.NowNs()/1e6+100000))
+	l.in.Do("SET", "rel", "v", "EX", "100")
+	l.in.Do("RPUSH", "lst", "a")
+	l.in.Do("EXPIRE", "lst", "50")
+	if !c.quiesce() {
+		ctx.Inconclusive("C07 witness: no quiescence")
+		return false
+	}
+	ctx.Eval(1)
+	ld := c.dump(l)
+	reproduced := false
+	for _, n := range c.aliveNodes() {
+		if n == l {
+			continue
+		}
+		d := model.DiffCanon(ld, c.dump(n))
+		if d == "" {
+			continue
+		}
+		// only the keys with a relative expiry may differ, and only in their deadline
+		if strings.Contains(d, `"abs"`) {
+			ctx.Violate(Violation{Kind: "divergence", Lane: "witness", What: "replicas with skewed clocks (+5 s, -3 s) disagree on a key with an ABSOLUTE deadline: " + trunc(d, 300),
+				Case: map[string]interface{}{"script": script}, Key: "c07|divergence|skew-absolute"})
+			continue
+		}
+		reproduced = true
+		if !findingOpen("C07-KF4") {
+			ctx.Violate(Violation{Kind: "divergence", Lane: "witness", What: "replicas whose clocks differ (+5 s, -3 s) hold different deadlines for keys set with a relative expiry: " + trunc(d, 300),
+				Case: map[string]interface{}{"script": script}, Key: "c07|divergence|skew-relative"})
+		}
+	}
+	return reproduced
 }
